@@ -28,7 +28,7 @@ def run(tier, seed):
     c1['events'] += c2['events']
     c1['samples'] += c2['samples'][:1]
     c1['interleaved_tasks_part'] = dict(evaluations=c2['evaluations'], hypothesis_holds_on=c2['hypothesis_holds_on'])
-    res4 = e1common.run_property(PROP, MODULE, THEOREMS, tier, seed + 3, 50, 4000, FEATURES_C, 'hits', ticks=(0,), extra_cases=[e1common.FIXED_COTASKS])
+    res4 = e1common.run_property(PROP, MODULE, THEOREMS, tier, seed + 3, 50, 4000, FEATURES_C, 'hits', ticks=(0,), extra_cases=[e1common.FIXED_COTASKS, e1common.FIXED_ASYNCIO])
     e1common.merge_results(res, res4, 'concurrent_coroutines_part')
     res3 = e1common.run_property(PROP, MODULE, THEOREMS, tier, seed + 2, 60, 4000, FEATURES_M, 'hits', threads=True, ticks=(0,))
     e1common.merge_results(res, res3, 'monitor_part')
